@@ -213,3 +213,29 @@ func Yield() { vsched.Yield() }
 
 // NextTimer is the virtual time of the earliest pending timer.
 func NextTimer() (time.Duration, bool) { return vsched.NextTimer() }
+
+
+// MsgReceiver is what sockets and contexts have in common on the receive side.
+type MsgReceiver interface {
+	RecvMsg() (*mangos.Message, error)
+}
+
+// Recv receives one message the way an application is entitled to: it takes the message, keeps a
+// copy of the body, overwrites header and body in place (the message is exclusively the
+// application's) and releases it.  Nobody else - another context that got the same publication,
+// a copy being forwarded to other peers, a later message in a recycled buffer - may notice.
+func Recv(r MsgReceiver) ([]byte, error) {
+	m, err := r.RecvMsg()
+	if err != nil {
+		return nil, err
+	}
+	b := append([]byte{}, m.Body...)
+	for i := range m.Body {
+		m.Body[i] ^= 0xa5
+	}
+	for i := range m.Header {
+		m.Header[i] ^= 0xa5
+	}
+	m.Free()
+	return b, nil
+}
